@@ -173,7 +173,7 @@ Definition do_step (cs : cstate) (st : step) : cstate * list (N * N) :=
   | StTxn body cp o =>
       let '(s', rs) := run_txn s body cp in
       let '(cs', d) := compare cs s' rs o in
-      (cs', (if txn_wf s body then [] else [(T_WF, 0)]) ++ d)
+      (cs', (if txn_wf s body then [] else [(T_WF, 0)]) ++ (if txn_keys_ok s body then [] else [(T_WF, 1)]) ++ d)
   | StNested pre inner icp post cp o =>
       (* a complete transaction [inner] runs while the outer one is in flight *)
       let '(s1, t1, r1) := do_stmts s txn0 pre in
